@@ -21,7 +21,7 @@ ASSUMPTIONS = [
 ]
 
 def plan(tier):
-    return dict(runs=960 if tier == 'quick' else 16000, timeout=300 if tier == "quick" else 5400)
+    return dict(runs=960 if tier == 'quick' else 16000, timeout=900 if tier == "quick" else 10800)
 
 def rename(rng, prems, conc):
     "Injective renaming of letters, constants, predicates (arity kept), bound variables."
